@@ -79,7 +79,7 @@ def translation_clause(model, rep, funcs):
                stmt=f"def binning scale ({a.split('::')[1]})")
         MB = Matcher(f)
         okm = seen.get("tr_recv") in ("self.molecules", "self._molecules") and \
-            MB.all_of(["$mol = self.molecules.translate($$t)", "$out = self.replace(molecules=$mol, ...)", "return $out"])[0]
+            MB.all_of(["$out = self.replace(molecules=self.molecules.translate($$t), ...)", "return $out"])[0]
         rep.ob("SLOT", a, "the translated copy of this loader's molecules is what the binned loader gets", okm, f"translate on {seen.get('tr_recv')}, replace(molecules={seen.get('mol')})",
                node=f.node, fn=f, clause="translation", stmt=f"def binning molecules ({a.split('::')[1]})")
         forms[a] = (tuple(repr(c) for c in comps), repr(sc))
